@@ -37,9 +37,15 @@ def one_case(ctx, d, steps, regmap, memmap, dflt, iter_seed, label, simcls=None,
     ok = True
     if real['err'] is not None:
         # a ROM read of an undefined address is the only legal reason for a PyrtlError here
-        if spec.get('ok') and spec.get('romfault') and real['err'][1] == 'PyrtlError':
+        if spec.get('ok') and spec.get('romfault') and real['err'][1] == 'PyrtlError' and getattr(d, 'rom_may_fault', True):
             ctx.count('outcome', 'rom-undefined-address (both)')
             return True
+        if spec.get('ok') and spec.get('romfault'):
+            # the generator declared every ROM total (full data, or pad_with_zeros): the ROM objects PyRTL made
+            # behind the scenes (build_new_roms) must be total as well
+            ctx.violation('%s-rom-raises' % simcls.__name__, '%s raised %s although every ROM of the design defines or zero-pads every address: %s' % (
+                simcls.__name__, real['err'][1], real['err'][2]), replay)
+            return False
         ctx.violation('%s-raises:%s' % (simcls.__name__, real['err'][1]),
                       '%s raised %s on a well-formed design with legal inputs: %s' % (
                           simcls.__name__, real['err'][1], real['err'][2]), replay)
